@@ -35,7 +35,7 @@ PROPS = {
     "C03": dict(modules=["Emu8086.Props.C03"], runs=[("l1", "muldiv"), ("l2", "muldiv"), ("l2", "divx")], gen=["Arch"],
                 rule="L1: MUL/IMUL/DIV/IDIV byte forms on (lattice+random AX) x all 256 operands, word forms on lattice triples + random 48-bit triples "
                      "biased to the quotient-overflow boundary; adjusts on AX x {AF,CF}; non-trivial = state changed or divide error"),
-    "C04": dict(modules=["Emu8086.Props.C04", "Emu8086.Props.ExecAll"], runs=[("l2", "mov+xfer"), ("l2", "arith+logic+shift+muldiv")], gen=["Arch", "ILiterals"],
+    "C04": dict(modules=["Emu8086.Props.C04", "Emu8086.Props.ExecAll"], runs=[("l2", "mov+xfer"), ("l2", "arith+logic+shift+muldiv"), ("l3", "operands")], gen=["Arch", "ILiterals"],
                 rule="L2 (Interpreter::parse on a fully specified machine): random lines of the MOV/XCHG/LEA and ALU families over all operand shapes "
                      "(direct, indirect, based, indexed, based-indexed, +-displacement, segment override, data label) x adversarial registers/segments "
                      "(lattice values, segments straddling 2^20); memory is a position-dependent pattern, so a read identifies the address used and the "
